@@ -194,7 +194,7 @@ Proof.
 Qed.
 
 Lemma is_nsdecl_spec : forall a, ra_loc a <> [] ->
-  sp_decl_of (sp_of a) = if is_nsdecl a then [(match ra_pfx a with [] => [] | _ => ra_loc a end, ra_val a)] else [].
+  sp_decl_of (sp_of a) = if is_nsdecl a then [(match ra_pfx a with [] => [] | _ => ra_loc a end, ra_nval a)] else [].
 Proof.
   intros a Hl. unfold sp_decl_of, sp_of, is_nsdecl. cbn [spa_pfx spa_loc spa_val].
   destruct (ra_pfx a) as [|c0 p0] eqn:Ep.
@@ -218,9 +218,9 @@ Proof.
   rewrite Epp.
   assert (H1 : colon = true -> pp <> []) by (unfold pp; intros ->; exact Hl).
   assert (H2 : colon = false -> pp = []) by (unfold pp; intros ->; reflexivity).
-  pose proof (nsmap_check_legal (c_v11 c) colon pp (ra_val a) H1 H2) as K. unfold bind at 1.
-  destruct (nsmap_check (c_v11 c) colon pp (ra_val a)) as [[]|e].
-  - destruct (st_addPrefix_inv c s ds rows pp (ra_val a) Hc HS K) as (s' & E & I' & Q). rewrite E.
+  pose proof (nsmap_check_legal (c_v11 c) colon pp (ra_nval a) H1 H2) as K. unfold bind at 1.
+  destruct (nsmap_check (c_v11 c) colon pp (ra_nval a)) as [[]|e].
+  - destruct (st_addPrefix_inv c s ds rows pp (ra_nval a) Hc HS K) as (s' & E & I' & Q). rewrite E.
     cbn [forallb]. rewrite K. split; [reflexivity|]. split; [exact I'|exact Q].
   - destruct K as [K1 K2]. cbn [forallb]. rewrite K2. split; [exact K1|reflexivity].
 Qed.
@@ -378,7 +378,7 @@ Lemma build_spec : forall c s rows attrs done seen, nonwf c -> SInvR (c_v11 c) s
   Forall2 (xkey_rel (sc_uris s)) done seen ->
   match buildAttList c s attrs done with
   | Ok xs => exists new, xs = rev done ++ new /\
-             Forall2 (fun x a => xa_pfx x = ra_pfx a /\ xa_loc x = ra_loc a /\ xa_val x = ra_val a /\
+             Forall2 (fun x a => xa_pfx x = ra_pfx a /\ xa_loc x = ra_loc a /\ xa_val x = ra_nval a /\
                                  res_ok (sc_uris s) (xa_uri x) (attr_ns rows (ra_pfx a))) new attrs /\
              dup_lr seen (map (fun a => (attr_ns rows (ra_pfx a), ra_loc a)) attrs) = false
   | Err e => ns_error e = true
@@ -392,13 +392,13 @@ Proof.
     pose proof (SInvR_pool_ok _ _ _ HS) as Hok.
     rewrite (same_expanded_keys _ done seen u (attr_ns rows (ra_pfx a)) (ra_loc a) Hok Hrel U).
     destruct (existsb (key_eqb (attr_ns rows (ra_pfx a), ra_loc a)) seen) eqn:Ed; [reflexivity|].
-    specialize (IH (mkXAttr u (ra_pfx a) (ra_loc a) (ra_val a) :: done) ((attr_ns rows (ra_pfx a), ra_loc a) :: seen) Hc HS).
-    assert (Hrel' : Forall2 (xkey_rel (sc_uris s)) (mkXAttr u (ra_pfx a) (ra_loc a) (ra_val a) :: done)
+    specialize (IH (mkXAttr u (ra_pfx a) (ra_loc a) (ra_nval a) :: done) ((attr_ns rows (ra_pfx a), ra_loc a) :: seen) Hc HS).
+    assert (Hrel' : Forall2 (xkey_rel (sc_uris s)) (mkXAttr u (ra_pfx a) (ra_loc a) (ra_nval a) :: done)
                             ((attr_ns rows (ra_pfx a), ra_loc a) :: seen)).
     { constructor; [|exact Hrel]. split; [exact U|reflexivity]. }
     specialize (IH Hrel').
-    destruct (buildAttList c s r (mkXAttr u (ra_pfx a) (ra_loc a) (ra_val a) :: done)) as [xs|e]; [|exact IH].
-    destruct IH as (new & E & F & D). exists (mkXAttr u (ra_pfx a) (ra_loc a) (ra_val a) :: new).
+    destruct (buildAttList c s r (mkXAttr u (ra_pfx a) (ra_loc a) (ra_nval a) :: done)) as [xs|e]; [|exact IH].
+    destruct IH as (new & E & F & D). exists (mkXAttr u (ra_pfx a) (ra_loc a) (ra_nval a) :: new).
     split; [rewrite E; cbn [rev]; rewrite <- app_assoc; reflexivity|].
     split; [constructor; [cbn [xa_pfx xa_loc xa_val xa_uri]; split; [reflexivity|]; split; [reflexivity|]; split; [reflexivity|exact U]|exact F]|].
     cbn [map dup_lr]. rewrite Ed. exact D.
@@ -413,10 +413,10 @@ Lemma startTag_nonwf : forall c s pfx loc attrs, nonwf c -> startTag c s pfx loc
 Proof. intros c s pfx loc attrs H. unfold startTag, nonwf in *. destruct (c_scanner c); [reflexivity|contradiction|reflexivity]. Qed.
 
 Definition triple_x (x : xattr) := (xa_pfx x, xa_loc x, xa_val x).
-Definition triple_a (a : rattr) := (ra_pfx a, ra_loc a, ra_val a).
+Definition triple_a (a : rattr) := (ra_pfx a, ra_loc a, ra_nval a).
 
 Definition built_rel (uris : pool) (rows : list (list decl)) (x : xattr) (a : rattr) : Prop :=
-  xa_pfx x = ra_pfx a /\ xa_loc x = ra_loc a /\ xa_val x = ra_val a /\ res_ok uris (xa_uri x) (attr_ns rows (ra_pfx a)).
+  xa_pfx x = ra_pfx a /\ xa_loc x = ra_loc a /\ xa_val x = ra_nval a /\ res_ok uris (xa_uri x) (attr_ns rows (ra_pfx a)).
 Lemma built_unbound : forall uris rows xs attrs, Forall2 (built_rel uris rows) xs attrs ->
   existsb is_unbound (map (fun a => attr_ns rows (ra_pfx a)) attrs) = false.
 Proof.
@@ -554,10 +554,10 @@ Proof.
     rewrite Hex. reflexivity.
   - rewrite SE in H. destruct (existsb (key_eqb (attr_ns rows (ra_pfx a), ra_loc a)) seen) eqn:Ed; [right; reflexivity|].
     cbn [orb].
-    assert (Hrel' : Forall2 (xkey_rel (sc_uris s)) (mkXAttr u (ra_pfx a) (ra_loc a) (ra_val a) :: done)
+    assert (Hrel' : Forall2 (xkey_rel (sc_uris s)) (mkXAttr u (ra_pfx a) (ra_loc a) (ra_nval a) :: done)
                             ((attr_ns rows (ra_pfx a), ra_loc a) :: seen)).
     { constructor; [|exact Hrel]. split; [exact U|reflexivity]. }
-    assert (Hdone' : Forall (done_ok c s) (mkXAttr u (ra_pfx a) (ra_loc a) (ra_val a) :: done)).
+    assert (Hdone' : Forall (done_ok c s) (mkXAttr u (ra_pfx a) (ra_loc a) (ra_nval a) :: done)).
     { constructor; [|exact Hdone]. split; [exact Eu|]. split; assumption. }
     destruct (IH _ _ Hc HS Hrel' Hdone' Hncr e H) as [K|K].
     + left. rewrite K. apply orb_true_r.
@@ -601,16 +601,22 @@ Proof.
 Qed.
 
 (** ** the individual error cases *)
+Lemma norm_raw_uri_xml : norm_raw uri_xml = uri_xml.
+Proof. vm_compute. reflexivity. Qed.
+Lemma norm_raw_uri_xmlns : norm_raw uri_xmlns = uri_xmlns.
+Proof. vm_compute. reflexivity. Qed.
 Lemma updateNSMap_error_cases : forall c s (p u : name), nonwf c -> p <> [] ->
   updateNSMap c s (mkRAttr s_xmlns s_xmlns u) = Err E_NoUseOfxmlnsAsPrefix /\
-  (u <> uri_xml -> updateNSMap c s (mkRAttr s_xmlns s_xml u) = Err E_PrefixXMLNotMatchXMLURI) /\
+  (norm_raw u <> uri_xml -> updateNSMap c s (mkRAttr s_xmlns s_xml u) = Err E_PrefixXMLNotMatchXMLURI) /\
   (c_v11 c = false -> p <> s_xmlns -> p <> s_xml -> updateNSMap c s (mkRAttr s_xmlns p []) = Err E_NoEmptyStrNamespace) /\
   (p <> s_xmlns -> p <> s_xml -> updateNSMap c s (mkRAttr s_xmlns p uri_xmlns) = Err E_NoUseOfxmlnsURI) /\
   (p <> s_xmlns -> p <> s_xml -> updateNSMap c s (mkRAttr s_xmlns p uri_xml) = Err E_XMLURINotMatchXMLPrefix) /\
   updateNSMap c s (mkRAttr [] s_xmlns uri_xmlns) = Err E_NoUseOfxmlnsURI /\
   updateNSMap c s (mkRAttr [] s_xmlns uri_xml) = Err E_XMLURINotMatchXMLPrefix.
 Proof.
-  intros c s p u Hc Hp. unfold updateNSMap, nsmap_check, bind. cbn [ra_pfx ra_loc ra_val].
+  intros c s p u Hc Hp. unfold updateNSMap, nsmap_check, bind, ra_nval. cbn [ra_pfx ra_loc ra_val].
+  rewrite norm_raw_uri_xml, norm_raw_uri_xmlns. change (norm_raw []) with (@nil N).
+  set (nu := norm_raw u).
   change (match s_xmlns with [] => false | _ :: _ => true end) with true. cbn iota.
   split; [rewrite name_eqb_refl; reflexivity|].
   split.
@@ -628,4 +634,13 @@ Proof.
   split.
   { rewrite name_eqb_refl. reflexivity. }
   change (name_eqb uri_xml uri_xmlns) with false. rewrite name_eqb_refl. reflexivity.
+Qed.
+
+(** the model's normalisation of the raw buffer is the normalisation of XML 1.0 section 3.3.3 *)
+Lemma norm_raw_spec : forall l, Forall (fun i => match i with AvLit c => c <> esc_mark | AvRef _ => True end) l ->
+  norm_raw (raw_of l) = spec_norm l.
+Proof.
+  intros l H. induction H as [|i r Hi Hr IH]; [reflexivity|]. destruct i as [c|c]; cbn [raw_of flat_map app spec_norm].
+  - fold (raw_of r). cbn [norm_raw]. apply N.eqb_neq in Hi. rewrite Hi. rewrite IH. reflexivity.
+  - fold (raw_of r). cbn [norm_raw app]. change (N.eqb esc_mark esc_mark) with true. cbn iota. rewrite IH. reflexivity.
 Qed.
